@@ -333,7 +333,7 @@ def mc_cfg(nprocs, maxver, maxnow, use_writer):
 
 
 # --------------------------------------------------------------------------- R
-ACT_POINT = {"StatSrc": "statsrc", "Exists": "exists", "StatMod": "statmod", "ReadSrc": "readsrc", "Mkstemp": "mkstemp",
+ACT_POINT = {"CheckDir": "direxists", "MkDir": "mkdir", "StatSrc": "statsrc", "Exists": "exists", "StatMod": "statmod", "ReadSrc": "readsrc", "Mkstemp": "mkstemp",
              "Write": "write", "Close": "close", "Move": "move", "MoveFrom": "move", "ReadSrcFrom": "readsrc", "LoadFrom": "load", "CallWriter": "writer", "Load": "load"}
 
 
@@ -372,6 +372,9 @@ def replay_behaviour(args):
                     w.step(p, "mid" if mid else "die")
             elif act == "Done":
                 pass   # the final event was consumed together with the last granted call
+            elif act == "CheckDir" and st.get("dir") is True and w.children.get(a[0]) is not None \
+                    and w.children[a[0]].at not in ("direxists", None):
+                pass    # the code does not re-check the directory it has just made: not part of the property
             elif act in ACT_POINT:
                 p = a[0]
                 c = w.children.get(p)
@@ -436,7 +439,7 @@ def check(run):
             run.spec_violation(res)
         for a, (d, g) in res.coverage.items():
             acts[a] = acts.get(a, 0) + g
-    for a in ("Modify", "Tick", "DeleteMod", "OtherGen", "Begin", "StatMod", "ReadSrcFrom", "Mkstemp", "Write", "Close", "MoveFrom", "CallWriter", "LoadFrom", "Done", "Crash"):
+    for a in ("Modify", "Tick", "DeleteMod", "OtherGen", "Begin", "CheckDir", "MkDir", "StatMod", "ReadSrcFrom", "Mkstemp", "Write", "Close", "MoveFrom", "CallWriter", "LoadFrom", "Done", "Crash"):
         if not acts.get(a):
             raise MachineryError("vacuous model checking: action %s never taken (%s)" % (a, acts))
     run.extra["action_coverage"] = acts
@@ -445,7 +448,7 @@ def check(run):
     jobs = []
     # exhaustive crash points of the single-writer protocol (first construction: 8 calls; k beyond the end = no crash)
     for uw in (False, True):
-        for k in range(1, 11):
+        for k in range(1, 14):
             for mode in ("before", "after", "mid"):
                 jobs.append(("plan", 2, uw, (0, 0, 2, uw, 0.0, run.scratch, (k, mode))))
     nh = 40 if not thorough else 600
